@@ -76,6 +76,7 @@ KINDS = {
     "asan": ("gcc", "-g -O1 -fsanitize=address,undefined -fno-sanitize-recover=undefined -fno-omit-frame-pointer", "drv"),
     "plain": ("gcc", "-g -O2", "drv"),
     "tsan": ("clang", "-g -O1 -fsanitize=thread -fno-omit-frame-pointer", "drv"),
+    "toolplain": ("gcc", "-g -O1", "tool"),
     "tool": ("gcc", "-g -O1 -fsanitize=address,undefined -fno-sanitize-recover=undefined -fno-omit-frame-pointer", "tool"),
 }
 
